@@ -126,6 +126,7 @@ pub fn cases(prop: &str, tier: Tier, seed: u64) -> Vec<CaseDesc> {
             base.extend(corpus::fixture_specs(true).into_iter().filter(|s| s.contains("name") || s.contains("invalid") || s.contains("import") || s.contains("simd") || s.contains("atomic") || s.contains("mem")));
             base.extend(corpus::probe_specs());
             base.extend(g("customs", 30, 1500));
+            base.extend(g("oddknown", 20, 800));
             // inputs with well-formed DWARF: .debug_* must be carried iff generate_dwarf
             for (i, b) in g("tiny", 6, 200).into_iter().enumerate() {
                 base.push(format!("dwarf:{}:{}:{}", if i % 2 == 0 { 4 } else { 5 }, ["f", "s", "z"][i % 3], b));
@@ -210,6 +211,22 @@ pub fn cases(prop: &str, tier: Tier, seed: u64) -> Vec<CaseDesc> {
             out.extend(with_scenario(crate::census::leb_specs(false), "rt:emit,probe,ins;cfg=90"));
             out.extend(with_scenario(crate::census::leb_specs(false), "rt:emit,probe,addfn;cfg=90"));
             out.extend(with_scenario(disk_corpus(false), "rt:emit,probe,reseq;cfg=90"));
+            // the map has two users when DWARF is rewritten as well (generate_dwarf implies the map): inputs with
+            // debug sections, the probe section reading the same transform after the debug emitter
+            let mut dw: Vec<String> = crate::census::leb_specs(false);
+            dw.extend(g("tiny", 40, 600));
+            for (i, b) in dw.iter().enumerate() {
+                let spec = format!("dwarf:{}:{}:{}", 4 + (i % 2), ["f", "s", "k"][i % 3], b);
+                out.push(CaseDesc { spec, scenario: format!("rt:emit,gc,probe{};cfg={}", if i % 4 == 3 { ",ins" } else { "" }, if i % 2 == 0 { 27 } else { 91 }) });
+            }
+            // function entries with three- and four-byte size prefixes: bodies beyond 2^14, 2^20 and 2^21 bytes
+            for s in ["lebb:2:6:20000", "lebb:1:4:1100000"] {
+                out.push(CaseDesc { spec: s.to_string(), scenario: "rt:emit,gc,probe;cfg=90".to_string() });
+            }
+            if !q {
+                out.push(CaseDesc { spec: "lebb:1:4:2200000".to_string(), scenario: "rt:emit,gc,probe;cfg=90".to_string() });
+                out.push(CaseDesc { spec: "lebb:3:4:1048500".to_string(), scenario: "rt:emit,probe,ins;cfg=90".to_string() });
+            }
             out.extend(with_scenario(disk_corpus(false), "rt:emit,gc,probe;cfg=90"));
             for (p, nq, nt) in [("full", 1500, 60_000), ("gcgraph", 800, 30_000), ("tiny", 500, 20_000)] {
                 let specs = g(p, nq, nt);
@@ -262,6 +279,8 @@ pub fn cases(prop: &str, tier: Tier, seed: u64) -> Vec<CaseDesc> {
             // imports added through the API in front of named local entities
             out.extend(with_scenario(crate::gen::gen_specs("names", seed ^ 0xadd1, if q { 1200 } else { 40_000 }), "rt:addimp"));
             out.extend(with_scenario(corpus::gcedge_specs(), "rt:addimp"));
+            // function replacement (the C18 operations): the original keeps its name, nothing migrates
+            out.extend(with_scenario(crate::gen::gen_specs("names", seed ^ 0x4e9, if q { 900 } else { 30_000 }), "replace"));
             // synthetic names switched on: the names the input gives must still win
             out.extend(with_scenario(crate::gen::gen_specs("names", seed ^ 0x5e7, if q { 1500 } else { 60_000 }), "rt:emit,gc;cfg=30"));
             out.extend(with_scenario(disk_corpus(false), "rt:emit,gc;cfg=30"));
